@@ -16,11 +16,14 @@ EXTENDS Props, TLC
 CONSTANTS Transitive,    \* repaired resolver: transitive Add, no re-adding (fix: C02)
           TopoSort,      \* repaired After ordering (fix: C05)
           ExitFix,       \* Exit veto in an auto transition cancels, no panic (fix: C07)
+          LoopFix,       \* handler loop restarted after a panic in an Exception tx (fix: C08)
+          EndFix,        \* final-phase rollback also from a failing End handler (fix: C08)
           OrderedAuto,   \* auto mutation calls states in index order (fix: C11)
           OrderedTopo,   \* Require topology visits states in index order (fix: C11)
           QueueLimit
 
-Fx == [transitive |-> Transitive, toposort |-> TopoSort, exitfix |-> ExitFix]
+Fx == [transitive |-> Transitive, toposort |-> TopoSort, exitfix |-> ExitFix,
+       loopfix |-> LoopFix, endfix |-> EndFix]
 
 TopoSet(s, i) == IF OrderedTopo THEN {TopoIndexOrder(s, i)} ELSE TopoChoices(s, i)
 
@@ -28,6 +31,8 @@ VARIABLES sch, idx, topo, hs,      \* configuration, fixed by Init
           active, clock, qtick,    \* machine state
           queue, running,          \* mutation queue, drain in progress
           veto, nest,              \* handler script of the current call
+          pan, stall,              \* handlers that panic / overrun their timeout
+          wedged,                  \* the handler goroutine is gone
           first,                   \* result of the first transition of the drain
           atCall,                  \* state snapshot when the call was issued
           firstTx,                 \* observation of the call's own transition
@@ -38,6 +43,7 @@ VARIABLES sch, idx, topo, hs,      \* configuration, fixed by Init
 cfgVars   == <<sch, idx, topo, hs>>
 machVars  == <<active, clock, qtick>>
 vars == <<sch, idx, topo, hs, active, clock, qtick, queue, running, veto, nest,
+          pan, stall, wedged,
           first, atCall, firstTx, prev, obs, verdict, ncalls>>
 
 None == [kind |-> "none"]
@@ -56,9 +62,14 @@ AllTrue ==
    c02deact |-> TRUE, c02none |-> TRUE,
    c03 |-> TRUE, c05 |-> TRUE,
    c07follows |-> TRUE, c07only |-> TRUE, c07judged |-> TRUE,
-   c14 |-> TRUE, c14last |-> TRUE, nocrash |-> TRUE]
+   c08 |-> TRUE, c14 |-> TRUE, c14last |-> TRUE, nocrash |-> TRUE, nohang |-> TRUE]
 
 TxVerdict(p, o) ==
+  IF o.faulted
+  THEN \* "a transition without handler faults" is the premise of C01's step
+       \* rule, C02, C05, C07, C14: a faulted transition is judged by C08 only
+       [AllTrue EXCEPT !.c08 = C08_Tx(idx, o)]
+  ELSE
   [AllTrue EXCEPT
      !.c01 = C01_Tx(sch, idx, o),
      !.c01pred = ((o.accepted /\ ~o.mut.check /\ ~o.mut.auto) => o.tp = o.ta),
@@ -72,13 +83,14 @@ TxVerdict(p, o) ==
      !.c07follows = C07_AutoFollows(sch, idx, p, o),
      !.c07only = C07_OnlyWhenDemanded(sch, idx, p, o),
      !.c07judged = C07_JudgedIndividually(Fx, sch, topo, o),
+     !.c08 = C08_Parity(idx, o),
      !.c14 = C14_Tx(p, o)]
 
 RetVerdict(p, o) ==
   [AllTrue EXCEPT
      !.c03 = C03_Call(o.call),
      !.c07follows = C07_AutoFollows(sch, idx, p, o),
-     !.c14last = (p.kind = "tx" => p.ta = o.mtime)]
+     !.c14last = ((p.kind = "tx" /\ ~p.faulted) => p.ta = o.mtime)]
 
 Pending(q) == Len(SelectSeq(q, LAMBDA m : m.tick > 0))
 
@@ -89,6 +101,7 @@ InitWith(s, i, t, h) ==
   /\ qtick = 1
   /\ queue = <<>> /\ running = FALSE
   /\ veto = {} /\ nest = <<>>
+  /\ pan = {} /\ stall = {} /\ wedged = FALSE
   /\ first = "none" /\ atCall = None /\ firstTx = None
   /\ prev = None /\ obs = [kind |-> "init"]
   /\ verdict = AllTrue
@@ -103,10 +116,11 @@ IsDup(q, type, called) ==
      /\ SEvery(q[k].called, called)
 
 (* A public mutation call from the (single) user goroutine on an idle machine *)
-Call(type, called, check, v, nst) ==
+CallF(type, called, check, v, nst, pn, stl) ==
   /\ ~running
   /\ running' = TRUE
   /\ veto' = v /\ nest' = nst
+  /\ pan' = pn /\ stall' = stl
   /\ first' = "none" /\ firstTx' = None
   /\ queue' = IF check THEN <<Mut(type, called, FALSE, TRUE, 0)>> \o queue
               ELSE Append(queue, Mut(type, called, FALSE, FALSE,
@@ -118,7 +132,9 @@ Call(type, called, check, v, nst) ==
   /\ obs' = [kind |-> "call", mut |-> atCall'.mut]
   /\ verdict' = AllTrue
   /\ ncalls' = ncalls + 1
-  /\ UNCHANGED <<cfgVars, machVars>>
+  /\ UNCHANGED <<cfgVars, machVars, wedged>>
+
+Call(type, called, check, v, nst) == CallF(type, called, check, v, nst, {}, {})
 
 AutoOrders(S) ==
   IF S = {} THEN {<<>>}
@@ -165,6 +181,8 @@ TxObs(mut, r, qt, vt) ==
    applied |-> r.applied,
    tlog |-> <<"init", "start">> \o (IF r.applied THEN <<"finals">> ELSE <<>>) \o <<"end">>,
    result |-> r.result,
+   pan |-> pan, stall |-> stall, vetoedOnly |-> vt,
+   faulted |-> r.fault = "fault",
    qtick |-> qt]
 
 (* handlers a transition would invoke when nobody vetoes (candidates for the  *)
@@ -178,28 +196,34 @@ NegCandidates ==
 StepV(vt) ==
   /\ running /\ queue # <<>>
   /\ LET mut == Head(queue)
-         r == RunTx(Fx, sch, idx, topo, hs,
-                    [active |-> active, clock |-> clock], mut, vt)
+         r == RunTxF(Fx, sch, idx, topo, hs,
+                     [active |-> active, clock |-> clock, wedged |-> wedged], mut,
+                     [veto |-> vt, pan |-> pan, stall |-> stall])
          qt == qtick + (IF mut.tick > 0 THEN 1 ELSE 0)
          o == TxObs(mut, r, qt, vt)
-     IN IF r.crash
-        THEN \* slices.Delete(-1) panic on the caller goroutine: the flag is
-             \* never released, the machine is wedged (recorded finding)
-             /\ obs' = [kind |-> "crash", mut |-> MutCore(mut)]
-             /\ verdict' = [AllTrue EXCEPT !.nocrash = FALSE]
+         excs == [i \in 1..r.nexc |-> Mut("add", <<"Exception">>, FALSE, FALSE, 0)]
+     IN IF r.crash \/ r.hang
+        THEN \* crash: slices.Delete(-1) panic on the caller goroutine (pinned
+             \* code); hang: the handler goroutine is gone, the call never
+             \* returns.  Either way the machine is lost.
+             /\ obs' = [kind |-> IF r.crash THEN "crash" ELSE "hang", mut |-> MutCore(mut)]
+             /\ verdict' = [AllTrue EXCEPT !.nocrash = ~r.crash, !.nohang = ~r.hang]
              /\ queue' = <<>> /\ running' = FALSE
-             /\ UNCHANGED <<cfgVars, machVars, veto, nest, first, atCall, firstTx, prev, ncalls>>
+             /\ UNCHANGED <<cfgVars, machVars, veto, nest, pan, stall, wedged, first, atCall,
+                            firstTx, prev, ncalls>>
         ELSE
           /\ active' = r.active /\ clock' = r.clock /\ qtick' = qt
+          /\ wedged' = r.wedged
           /\ \E order \in AutoOrders(r.autoSet) :
-               queue' = (IF r.autoSet = {} THEN <<>>
-                         ELSE <<Mut("add", order, TRUE, FALSE, 0)>>)
+               queue' = excs \o (IF r.autoSet = {} THEN <<>>
+                                 ELSE <<Mut("add", order, TRUE, FALSE, 0)>>)
                         \o NestedAppend(Tail(queue), o.hlog, qt)
           /\ first' = IF first = "none" THEN r.result ELSE first
           /\ firstTx' = IF firstTx = None THEN o ELSE firstTx
           /\ prev' = IF obs.kind = "tx" THEN obs ELSE prev
           /\ obs' = o
           /\ verdict' = TxVerdict(IF obs.kind = "tx" THEN obs ELSE prev, o)
+          /\ pan' = pan \ r.fired /\ stall' = stall \ r.fired
           /\ UNCHANGED <<cfgVars, running, veto, nest, atCall, ncalls>>
 
 RetObs ==
@@ -221,7 +245,7 @@ Return ==
   /\ obs' = RetObs
   /\ verdict' = RetVerdict(IF obs.kind = "tx" THEN obs ELSE prev, RetObs)
   /\ first' = "none" /\ atCall' = None /\ firstTx' = None
-  /\ UNCHANGED <<cfgVars, machVars, queue, veto, nest, ncalls>>
+  /\ UNCHANGED <<cfgVars, machVars, queue, veto, nest, pan, stall, wedged, ncalls>>
 
 Step == StepV(veto)
 
@@ -246,4 +270,6 @@ Inv_C07_Judged           == verdict.c07judged
 Inv_C14      == verdict.c14
 Inv_C14_Last == verdict.c14last
 Inv_NoCrash  == verdict.nocrash
+Inv_NoHang   == verdict.nohang
+Inv_C08      == verdict.c08
 =============================================================================
